@@ -26,6 +26,11 @@ var hooks = &conc.Hooks{Deadlock: lockmon.Deadlock}
 func monitored(t conc.Fataler, tr conc.Trial, seed uint64) (completed int) {
 	lockmon.Reset(seed, 350, 300)
 	completed = conc.RunTrial(t, tr, hooks)
+	// every connection goroutine of the trial has ended (RunTrial waits for
+	// that): a monitored lock that is still held will never be released
+	if l := lockmon.Leaked(); len(l) > 0 {
+		t.Fatalf("lock monitor: %d lock(s) still held after every session finished and disconnected (never released): %s\ntrial: %s", len(l), strings.Join(l, "; "), tr)
+	}
 	st := lockmon.Counters()
 	ev.ClassN("nested-acquisitions", st.Nested)
 	ev.ClassN("pauses-injected", st.Paused)
